@@ -328,8 +328,8 @@ impl PoolSubject {
 
     /// Direct parents of `c` inside `set` (statement-level dependency: spends a
     /// coin output of, or uses a contract created by, another transaction of
-    /// the set). `chain_contracts`: contract edges are ignored for contracts
-    /// that already exist on chain when `Some`.
+    /// the set). With `Some(world)`, contract edges are ignored for contracts
+    /// that already exist (on chain or created by an in-flight transaction).
     fn parents_in(&self, c: usize, set: &BTreeSet<usize>, w: Option<&World>) -> BTreeSet<usize> {
         let t = self.tx(c);
         let mut out = BTreeSet::new();
@@ -345,7 +345,11 @@ impl PoolSubject {
         }
         for k in &t.contract_inputs {
             if let Some(w) = w {
-                if w.chain.read(|d| d.contracts.contains(k)) {
+                // the contract already exists: on chain, or created by a handed-out /
+                // preconfirmed transaction (its user does not wait for a pool creator)
+                if w.chain.read(|d| d.contracts.contains(k))
+                    || w.m.in_flight.iter().any(|&p| self.tx(p).created_contracts.contains(k))
+                {
                     continue;
                 }
             }
@@ -771,11 +775,14 @@ impl PoolSubject {
                     ),
                 ));
             }
+            // the chain of a transaction = the transaction plus everything that has to run
+            // before it (this is what the configured limit bounds; it subsumes the longest path)
+            let longest = longest.max(paths.len() + 1);
             if longest > self.cfg.chain_limit {
                 return Err(viol(
                     "graph:chain-too-long",
                     format!(
-                        "dependency chain ending in {} has {longest} transactions, configured limit {} (pool {:?})",
+                        "the dependency chain of {} (itself plus its pooled ancestors) has {longest} transactions, configured limit {} (pool {:?})",
                         self.tx(x).name,
                         self.cfg.chain_limit,
                         self.names(pooled.clone())
@@ -883,21 +890,30 @@ impl PoolSubject {
         }
         self.check_parents_first(before, after, out, w)?;
         // executable at the same time = same dependency depth within this extraction
+        // (a contract that has both a pooled creator and an in-flight / on-chain one makes the
+        // depth of its users ambiguous: such users are left out of the comparison)
         let outset: BTreeSet<usize> = out.iter().copied().collect();
-        let mut depth: BTreeMap<usize, usize> = BTreeMap::new();
-        for &x in out {
-            let d = self
-                .parents_in(x, before, Some(w))
-                .iter()
-                .filter(|p| outset.contains(p))
-                .map(|p| depth.get(p).copied().unwrap_or(0) + 1)
-                .max()
-                .unwrap_or(0);
-            depth.insert(x, d);
-        }
+        let depths = |world: Option<&World>| {
+            let mut depth: BTreeMap<usize, usize> = BTreeMap::new();
+            for &x in out {
+                let d = self
+                    .parents_in(x, before, world)
+                    .iter()
+                    .filter(|p| outset.contains(p))
+                    .map(|p| depth.get(p).copied().unwrap_or(0) + 1)
+                    .max()
+                    .unwrap_or(0);
+                depth.insert(x, d);
+            }
+            depth
+        };
+        let (depth, depth_all_edges) = (depths(Some(w)), depths(None));
         let mut last: BTreeMap<usize, usize> = BTreeMap::new();
         for &x in out {
             let d = depth[&x];
+            if depth_all_edges[&x] != d {
+                continue;
+            }
             if let Some(&prev) = last.get(&d) {
                 let (p, t) = (self.tx(prev), self.tx(x));
                 if gt_ratio(t.tip, t.gas, p.tip, p.gas) {
